@@ -183,9 +183,19 @@ def check_library_call(name, args, debug=True):
             ok = ok or res[1] is args[2] or res[1] == args[2]
         if not ok:
             raise Violation('failing %s(...) evaluated to %r (expected null or its documented failure value)' % (name, res[1]), d, 'failure-value:' + name)
+    # the spreadsheet alias of the function, evaluated with no options object at all (arguments as locals)
+    alias = ALIAS_OF.get(name)
+    if alias is not None:
+        expr = impl.bs.parse_expression('%s(%s)' % (alias, ', '.join(names)))
+        r2 = contained('%s(...) without options' % alias, lambda: impl.bs.evaluate_expression(expr, None, dict(zip(names, _fresh(args)))), d)
+        if r2[0] == 'ok' and not is_value(r2[1]):
+            raise Violation('%s(...) returned %r' % (alias, r2[1]), d, 'not-a-value:' + alias)
     if not debug and any(isinstance(m, str) and m.startswith('BareScript:') for m in log):
         raise Violation('%s(...) logged %r with debug off' % (name, log[:2]), d, 'log-without-debug:' + name)
     return bool(failed)
+
+
+ALIAS_OF = {}
 
 
 def _fresh(v):
@@ -366,6 +376,8 @@ PROGRAM_ADV = [v for v in ADV_NUMBERS if not (isinstance(v, int) and abs(v) > 2 
 
 
 def plan(tier):
+    from pbt.refsem.interp import EXPRESSION_ALIASES
+    ALIAS_OF.update({v: k for k, v in EXPRESSION_ALIASES.items() if k not in ('now', 'today', 'rand')})
     k = 5 if tier == 'quick' else 16
     specs = [{'kind': 'expr', 'n': 6000 if tier == 'quick' else 60000, 'k': i} for i in range(k)]
     names = sorted(n for n in impl.bs.SCRIPT_FUNCTIONS if n not in c12.EXCLUDED)
